@@ -291,7 +291,8 @@ func runVector(v *Vector, seed int64, wantTrace bool) VecResult {
 				Want: "unchanged", Sig: "held@" + bad})
 		}
 		// pure functions once more, on the twin copy of the inputs that lay behind the parameters during the first call
-		if twinActs[st.Act] && !st.Soft && e.twins[st.Act] != nil {
+		_, onObject := args["obj"] // a step on a NAMED long-lived object is an event in that object's history: it is not repeated
+		if twinActs[st.Act] && !st.Soft && e.twins[st.Act] != nil && !onObject {
 			obs3 := runAct(e, st, e.twins[st.Act])
 			e.scribbleTwin(st.Act)
 			if h3, _ := obs3["hang"].(bool); h3 {
@@ -308,7 +309,7 @@ func runVector(v *Vector, seed int64, wantTrace bool) VecResult {
 			}
 		}
 		// an absent octet string may reach the library as nil or as an empty non-nil slice: same expectations either way
-		if hasEmptyInput(st.Act, args) && !st.Soft {
+		if hasEmptyInput(st.Act, args) && !st.Soft && !onObject {
 			obs2 := runAct(e, st, e.present(st.Act, args, true))
 			e.scribble(st.Act)
 			if h2, _ := obs2["hang"].(bool); h2 {
